@@ -414,7 +414,7 @@ impl Check for C15 {
         vec!["uuid/chrono key types are feature-gated and not covered".into(), "the reference order is Rust's Ord on the mirrored owned value (numeric, scalar value for char, lexicographic for str/slices/arrays/tuples, None < Some)".into()]
     }
     fn plan(&self, tier: Tier) -> Plan {
-        Plan { cases: tier.pick(12_000, 1_500_000), max_recs: 64, max_shrink_iters: 5000, workers: 16 }
+        Plan { cases: tier.pick(100_000, 3_000_000), max_recs: 64, max_shrink_iters: 5000, workers: 16 }
     }
     fn run(&self, tape: &Tape, want_sample: bool) -> Result<CaseOut, Failure> {
         let mut st = PairStats::default();
